@@ -66,3 +66,37 @@ for cls, mod in (('Server', 'server'), ('AsyncServer', 'async_server')):
     c.modifies('self.sockets', 'Socket.closing', 'Socket.closed', 'Queue.items', 'Queue.unf',
                'Queue.taken', 'Queue.accepted', 'Queue.put_none', 'Queue.taken_none',
                'ghost.events', 'ghost.now', 'ghost.spawned')
+
+# ------------------------------------------------------------------------------ _handle_connect
+REG.contract('base_socket.BaseSocket.__init__').inline = True
+from .c_socket import QI, WS_MOD, SR  # noqa: E402
+
+NEW_SID = 'sid_of(csprng[len(old(csprng))], old(self.sequence_number))'
+SERVER_WF = ('self.ping_timeout >= 0 and self.ping_interval >= 0 and '
+             'self.ping_interval_grace_period >= 0 and self.max_http_buffer_size >= 0 and '
+             '0 <= self.sequence_number and self.sequence_number < 16777216 and '
+             '(self.cookie is None or isinstance(self.cookie, str))')
+c = REG.contract('server.Server._handle_connect', props=['C05', 'C11', 'C16', 'C06'])
+c.param('self', Ref('Server')).param('environ', ENV).param('start_response', SR)
+c.param('transport', STR).param('jsonp_index', [NONE, INT])
+c.returns_cases(('http-response', "transport != 'websocket' or "
+                 "self._async['websocket'] is None or True", RESP),
+                ('websocket-session', "transport == 'websocket'", QI))
+c.requires(SERVER_WF, 'server-wf')
+c.requires("transport == 'polling' or transport == 'websocket'", 'transport')
+c.requires("'connect' in self.handlers and handler_accepts(self.handlers['connect'], 2)",
+           'connect-handler-registered')
+c.may_raise('Exception', "transport == 'websocket'", label='websocket-driver-error')
+c.ensures('id-issued', 'len(csprng) == len(old(csprng)) + 1', props=['C11', 'C17'])
+c.ensures('only-the-new-id-is-touched', 'dict_del(self.sockets, ' + NEW_SID + ') == '
+          'dict_del(old(self.sockets), ' + NEW_SID + ')', props=['C11', 'C16'])
+c.ensures('connect-handler-first-and-once',
+          "events[0:len(old(events))] == old(events) and len(events) > len(old(events)) and "
+          "ev_handler(events[len(old(events))]) == self.handlers['connect'] and "
+          "ev_arg0(events[len(old(events))]) == " + NEW_SID, props=['C05', 'C11'])
+c.ensures('polling-accept-or-reject-adds-no-other-event', "implies(transport == 'polling', "
+          "len(events) == len(old(events)) + 1)", props=['C05'])
+c.modifies('self.sockets', 'self.sequence_number', 'self.start_service_task',
+           'self.service_task_handle', 'ghost.csprng', 'ghost.events', 'ghost.spawned',
+           'ghost.now', 'ghost.ws_log', 'ghost.received', 'ghost.sr_log', 'ghost.sr_headers',
+           'Packet.encode_cache')      # the new socket, its queue and packets are fresh objects
